@@ -335,7 +335,7 @@ func runMain(args []string) {
 	}
 	t0 := time.Now()
 	pat := "./" + cfg.Pkg
-	prog, err := loadProgram([]string{pat})
+	prog, err := loadProgram([]string{pat, "./zz_verif_model"})
 	if err != nil {
 		fmt.Println(err)
 		os.Exit(2)
